@@ -78,7 +78,7 @@ manifest = {
                  "kind_free_text": "explicit TLA+ specification in /verif/spec checked by TLC; spec->code replay of TLC-enumerated cases/behaviours and code->spec trace validation (Trace_*.tla)"}],
     "checks": checks,
     "not_applicable": na,
-    "notes": "Entry point: ./check <id> --tier quick|thorough [--replay <path>]; VERIF_SEED, VERIF_TIER and VERIF_REPO are honoured. Exit 0 held / 1 VIOLATION / 2 machinery failure. Defects D1-D8 found by these checks were repaired in /repo by fix: commits (known_findings.json, DESIGN.md 12.3).",
+    "notes": "Entry point: ./check <id> --tier quick|thorough [--replay <path>]; VERIF_SEED, VERIF_TIER and VERIF_REPO are honoured. Exit 0 held / 1 VIOLATION / 2 machinery failure. Defects D1-D9 found by these checks were repaired in /repo by fix: commits (known_findings.json, DESIGN.md 12.3).",
 }
 with open(os.path.join(HERE, "MANIFEST.json"), "w") as f:
     json.dump(manifest, f, indent=1)
